@@ -72,7 +72,7 @@ ASSUMPTIONS = ["content tokens: a file is `good` iff it is the complete output o
                "runs are enumerated in the thorough tier"]
 
 VARIANT_FIXED = {"flushBeforeLock": True, "dropProcessed": True, "locksFirst": True, "countUnaligned": True,
-                 "refRewrite": True, "faiAtomic": True}
+                 "refRewrite": True, "faiAtomic": True, "paramsAtomic": True}
 # development aid only (docs/C07.md, "the pinned variant against the pinned tree"): VERIF_C07_VARIANT=pinned compares a
 # checkout of the tree before the fix: commits (VERIF_REPO) with the model's `pinned` variant
 if os.environ.get("VERIF_C07_VARIANT") == "pinned":
@@ -83,6 +83,9 @@ if os.environ.get("VERIF_C07_REF_ORIG") == "1":
     VARIANT_FIXED = dict(VARIANT_FIXED, refRewrite=False)
 # VERIF_C07_FAI_ORIG=1: a tree before eab0ef3 (pyfaidx writes the index in place; the index of an unpacked copy lies next to
 # the compressed file, outside the folder) against the model's `faiAtomic = false` behaviour
+# VERIF_C07_PARAMS_ORIG=1: a tree before ffd90d3 (`.params` rewritten in place) against the model's `paramsAtomic = false`
+if os.environ.get("VERIF_C07_PARAMS_ORIG") == "1":
+    VARIANT_FIXED = dict(VARIANT_FIXED, paramsAtomic=False)
 FAI_ORIG = os.environ.get("VERIF_C07_FAI_ORIG") == "1"
 if FAI_ORIG:
     VARIANT_FIXED = dict(VARIANT_FIXED, faiAtomic=False)
@@ -140,7 +143,7 @@ class PathTable(dict):
 def path_table(chrs, prefix=R.PREFIX):
     """relative file name -> model path (JSON list); chromosome = index in processing order"""
     P = prefix
-    t = PathTable({".params": ["params"], "%s/aux/%s.read_group_lock" % (P, P): ["rgLock"],
+    t = PathTable({".params": ["params"], ".params.tmp": ["paramsTmp"], "%s/aux/%s.read_group_lock" % (P, P): ["rgLock"],
                    "%s/aux/%s.save_info" % (P, P): ["info"], "%s/aux/%s.save_lock" % (P, P): ["lock"]})
     for suf, s in SUFFIX.items():
         t["%s/%s.%s" % (P, P, suf)] = ["final", s]
@@ -213,12 +216,17 @@ def canon_trace(trace, table):
                 unknown.append("%s renamed to %s" % (rel, op.split(":", 1)[1]))
         muts.append((n, o, mp))
     # the lock files removed by a fresh run before `.params` is written come from globs: order them as the model does
-    pi = next((i for i, m in enumerate(muts) if m[2] == ["params"]), 0)
+    pi = next((i for i, m in enumerate(muts) if is_params(m[2])), 0)
     if pi > 0 and all(m[1] == "remove" for m in muts[:pi]):
         rank = {"lock": 0, "rgLock": 1, "collected": 2, "processed": 3}
         head = sorted(muts[:pi], key=lambda m: (rank.get(m[2][0], 9), m[2][1:]))
         muts = [(muts[i][0], head[i][1], head[i][2]) for i in range(pi)] + muts[pi:]
     return muts, commits, unknown
+
+
+def is_params(p):
+    """`.params` or the temporary name it is written under (save_params since ffd90d3)"""
+    return p[:1] in (["params"], ["paramsTmp"])
 
 
 def save_reads(trace, table):
@@ -264,7 +272,7 @@ def completion_check(real_muts, real_commits, m_muts, m_commits):
     for g, p in real_commits:
         rc.setdefault(json.dumps(p), []).append(g)
     for g, p, tok in m_commits:
-        if p[0] in ("refFaiData", "refFai"):
+        if p[0] in ("refFaiData", "refFai") or (p[0] == "params" and VARIANT_FIXED.get("paramsAtomic", True)):
             continue            # installed by os.replace of a file that was completed under its temporary name
         key = json.dumps(p)
         ps = pos.get(key, [])
@@ -407,10 +415,13 @@ class Session:
 
     def first_point(self):
         """first kill point inside the quantifier: the mutation after `.params` was written"""
+        last = None
         for n, op, p in self.muts:
-            if p == ["params"]:
-                return n + 1
-        return None
+            if is_params(p):
+                last = n            # `open` of .params.tmp, then the rename over .params (before ffd90d3: one `open` of .params)
+            elif last is not None:
+                break
+        return None if last is None else last + 1
 
     def points(self, ctx):
         first = self.first_point()
@@ -664,7 +675,7 @@ class ConvSession(Session):
     cache file is replaced atomically); `find_converted_db` trusts a database only with that entry and matching mtimes, so
     a partial `.db` is never read: the resumed run converts again (`create_db(force=True)` unlinks and refills the file)."""
     kind = "conv"
-    DELAYS = (0.05, 0.15, 0.3, 0.6)
+    DELAYS = (0.004, 0.01, 0.02, 0.04, 0.08, 0.3)      # the conversion of the small annotation takes 20-60 ms on a quiet machine
 
     def __init__(self, base, idx, cfg, data=None):
         Session.__init__(self, base, idx, cfg, data)
@@ -683,7 +694,9 @@ class SqantiSession(Session):
 
 
 def tag(p, j):
-    return p if p == ["params"] else p + ["@%d" % j]
+    if p == ["params"]:
+        return p
+    return p + ["@%d" % (0 if p == ["paramsTmp"] else j)]      # (the model files `.params.tmp` under the first experiment)
 
 
 def untag(p):
@@ -880,13 +893,14 @@ def second_kill_points(ctx, sess):
     if r1["verdict"] != "EQUAL":
         return st[key]
     rt = canon_trace(r1.get("resume_trace", []), sess.table)[0]
-    np_ = next((n for n, o, p in rt if p == ["params"]), None)
-    if np_ is None:
+    ps = [n for n, o, p in rt if is_params(p)]          # `open` of .params.tmp, rename over .params (old: `open` of .params)
+    if not ps:
         return st[key]
-    later = [n for n, o, p in rt if n > np_ + 1]
+    np_ = ps[0]
+    around = [(k1, "a", n, ph) for n in ps for ph in "ba"] + [(k1, "a", ps[-1] + 1, "b")]
+    later = [n for n, o, p in rt if n > ps[-1] + 1]
     extra = ctx.rng.sample(later, min(len(later), 2 if ctx.tier == "quick" else 12))
-    st[key] = [(k1, "a", np_, "b"), (k1, "a", np_, "a"), (k1, "a", np_ + 1, "b")] + \
-        [(k1, "a", n, ctx.rng.choice("ab")) for n in sorted(extra)]
+    st[key] = around + [(k1, "a", n, ctx.rng.choice("ab")) for n in sorted(extra)]
     sess.second_resume_muts = rt
     return st[key]
 
@@ -974,10 +988,11 @@ def model_index(m_muts, j, ph, evs=None):
     if ph == "w":
         return i + 2
     k = i + 1
-    if evs is not None and evs[i][0] == "remove" and evs[i][1] == ["refFaiTmp"]:
-        # the mutation is os.replace(temporary index, index): one atomic step = `remove refFaiTmp`, `commit refFaiData`,
-        # `commit refFai` in the model
-        while k < len(evs) and evs[k][0] == "commit" and evs[k][1][0] in ("refFaiData", "refFai"):
+    if evs is not None and evs[i][0] == "remove" and evs[i][1][0] in ("refFaiTmp", "paramsTmp"):
+        # the mutation is os.replace(temporary file, final name): one atomic step = `remove refFaiTmp`, `commit refFaiData`,
+        # `commit refFai` / `remove paramsTmp`, `commit params` in the model
+        inst = ("refFaiData", "refFai") if evs[i][1][0] == "refFaiTmp" else ("params",)
+        while k < len(evs) and evs[k][0] == "commit" and evs[k][1][0] in inst:
             k += 1
     return k
 
@@ -1591,9 +1606,9 @@ def oracle(ctx, disagreements, broken):
             for (k, ph), r in zip(pts, res):
                 judge(ctx, sess, k, ph, r)
                 if sess.kind == "conv" and r["verdict"] != "NOCRASH":
-                    dbs = [sz for f, sz in r["snapshot"].items() if f.endswith(".db")]
-                    ctx.count("conversion_kill:" + ("no_db_yet" if not dbs else "db_partial" if dbs[0] != sess.db_size
-                                                    else "db_complete"))
+                    dbs = [(f, sz) for f, sz in r["snapshot"].items() if ".db" in os.path.basename(f)]
+                    part = [x for x in dbs if x[0].endswith(".tmp") or x[1] != sess.db_size]     # (since c8cdda4: <db>.<hex>.tmp)
+                    ctx.count("conversion_kill:" + ("no_db_yet" if not dbs else "db_partial" if part else "db_complete"))
             ctx.count("oracle_points", len(pts))
             # two interruptions: the resumed run is killed as well (plain sessions; the first one in the quick tier)
             if sess.kind == "plain" and (ctx.tier != "quick" or sess is sessions(ctx)[0]):
